@@ -33,14 +33,16 @@ def run(ctx, rep):
     eng.trace_kinds = set(TRACE)
     for f in (seq, part, nd):
         eng.opaque.add(f)
+    main_appends = []
+    eng.hooks['map_append'] = lambda eng_, st_, fr_, t_, a_, b_: main_appends.append((a_, b_))
     args = eng.sym_args(blk, ['params', 'location', 'date_range', 'min_days_for_pll'])
     tree = eng.call_entry(blk, args)
     leaves = list(E.leaves_of(tree))
     rep.floor('outcomes of the range-block API', len(leaves), 2)
     if eng.incomplete:
-        rep.ob('engine', 'incomplete', False, str(eng.incomplete[:2]))
+        rep.ob('engine', 'incomplete', None, str(eng.incomplete[:2]))
     P, L, DR = ('param', 'params'), ('param', 'location'), ('param', 'date_range')
-    seq_paths = par_paths = 0
+    seq_paths = par_paths = inline_paths = 0
     worker_closures = set()
     collector_closures = set()
     avail_terms = set()
@@ -59,7 +61,20 @@ def run(ctx, rep):
         consumed = set()
         collector = None
         joined = False
+        inline_recv = False
         for i, (k, p) in enumerate(tr):
+            if k == 'recv' and collector is None:
+                # the scope thread itself drains the channel (no collector thread)
+                if not inline_recv:
+                    inline_recv = True
+                    pending = [s for s in senders if s not in consumed]
+                    rep.ob('R15.1', 'senders-closed-before-join', not pending,
+                           'every Sender is moved into a worker or dropped before the receive loop starts' if not pending else
+                           f'Sender {show(pending[0], maxd=3)[:100]} is still alive while the scope thread receives: recv() never fails, '
+                           'the loop blocks forever')
+                continue
+            if k == 'sender-new' and inline_recv:
+                rep.ob('R15.1', 'senders-closed-before-join', False, 'a Sender is created after the receive loop started')
             if k == 'sender-new':
                 senders[p['sender']] = i
             elif k == 'spawn':
@@ -107,6 +122,10 @@ def run(ctx, rep):
                     rep.ob('R15.1', 'senders-closed-before-join', not pending,
                            'every Sender is moved into a worker or dropped before the collector is joined' if not pending else
                            f'Sender {show(pending[0], maxd=3)[:100]} is still alive when the collector is joined: recv() never fails, the join blocks forever')
+        if inline_recv and collector is None:
+            inline_paths += 1
+            collector_checks(rep, [st], main_appends)
+            continue
         rep.ob('R15.1', 'collector-joined', joined, 'the collector thread is joined and its value returned' if joined else
                'the collector handle is never joined')
         if joined:
@@ -116,7 +135,7 @@ def run(ctx, rep):
     rep.floor('sequential paths', seq_paths, 1)
     rep.floor('parallel paths', par_paths, 1)
     rep.floor('worker closures', len(worker_closures), 1)
-    rep.floor('collector closures', len(collector_closures), 1)
+    rep.floor('collectors (threads with the receiver, or receive loops of the scope thread)', len(collector_closures) + inline_paths, 1)
 
     for a in avail_terms:
         lb = c14.lower_bound(a)
@@ -172,32 +191,37 @@ def run(ctx, rep):
         lv = list(E.leaves_of(tree3))
         rep.floor('collector outcomes', len(lv), 1)
         if eng3.incomplete:
-            rep.ob('engine', 'incomplete-collector', False, str(eng3.incomplete[:2]))
-        for st in lv:
-            recv_conds = [(c, v) for c, v in st.asm.items() if isinstance(c, tuple) and c and c[0] == 'iterhas' and
-                          isinstance(c[2], tuple) and c[2] and c[2][0] == 'recv']
-            ok = bool(recv_conds) and all(v is False for _, v in recv_conds)
-            rep.ob('R15.1', 'collector-exits-on-closed-channel', ok,
-                   'the collector returns only after recv() failed (all senders gone)' if ok else
-                   'the collector can return while messages may still arrive: ' + str([(show(c, maxd=2)[:60], v) for c, v in recv_conds]))
-            # the returned map: built from appends of received maps only
-            ret = st.ret
-            okm = True
-            x = ret
-            n = 0
-            while isinstance(x, tuple) and x and x[0] in ('mapsum', 'ite') and n < 10:
-                if x[0] == 'ite':
-                    x = x[2] if x[2][0] == 'mapsum' else x[3]
-                    continue
-                recvd = x[3]
-                if not (recvd[0] == 'iterval' and recvd[2][0] == 'recv'):
-                    okm = False
-                x = x[1]
-                n += 1
-            okm = okm and x == ('map', None, ())
-            rep.ob('R15.4', 'collector-only-appends', okm, 'returns the union of the received maps (BTreeMap::append into an empty map)'
-                   if okm else f'collector returns {show(ret, maxd=4)[:140]}')
-        rep.floor('append sites', len(appends), 1)
+            rep.ob('engine', 'incomplete-collector', None, str(eng3.incomplete[:2]))
+        collector_checks(rep, lv, appends)
+
+
+def collector_checks(rep, lv, appends):
+    """the receiving code leaves its loop only on a closed channel and only appends what it received"""
+    for st in lv:
+        recv_conds = [(c, v) for c, v in st.asm.items() if isinstance(c, tuple) and c and c[0] == 'iterhas' and
+                      isinstance(c[2], tuple) and c[2] and c[2][0] == 'recv']
+        ok = bool(recv_conds) and all(v is False for _, v in recv_conds)
+        rep.ob('R15.1', 'collector-exits-on-closed-channel', ok,
+               'the collector returns only after recv() failed (all senders gone)' if ok else
+               'the collector can return while messages may still arrive: ' + str([(show(c, maxd=2)[:60], v) for c, v in recv_conds]))
+        # the returned map: built from appends of received maps only
+        ret = st.ret
+        okm = True
+        x = ret
+        n = 0
+        while isinstance(x, tuple) and x and x[0] in ('mapsum', 'ite') and n < 10:
+            if x[0] == 'ite':
+                x = x[2] if x[2][0] == 'mapsum' else x[3]
+                continue
+            recvd = x[3]
+            if not (recvd[0] == 'iterval' and recvd[2][0] == 'recv'):
+                okm = False
+            x = x[1]
+            n += 1
+        okm = okm and x == ('map', None, ())
+        rep.ob('R15.4', 'collector-only-appends', okm, 'returns the union of the received maps (BTreeMap::append into an empty map)'
+               if okm else f'collector returns {show(ret, maxd=4)[:140]}')
+    rep.floor('append sites', len(appends), 1)
 
 
 def closure_capture_types(ctx, clo_path):
